@@ -36,7 +36,9 @@ static std::string ruleJson(const RB& r, const PB& pol) {
   return j.done();
 }
 
-template <typename ZI, typename ZIB, typename ZPB_T>
+static bool g_abbrev = false;      // --abbrev: also ask the processor for the abbreviation at two fixed instants (C12 text path)
+
+template <typename ZI, typename ZIB, typename ZPB_T, typename PROC>
 static void dumpDb(const char* kind, const ZI* const* reg, uint16_t n) {
   std::map<const void*, int> policyIds;
   std::string policies = "[";
@@ -72,6 +74,10 @@ static void dumpDb(const char* kind, const ZI* const* reg, uint16_t n) {
     }
     eras += "]";
     z.raw("eras", eras);
+    if (g_abbrev) {
+      PROC proc; TimeZone tz = TimeZone::forZoneInfo(reg[i], &proc);
+      z.str("abbrevJul2010", tz.getAbbrev((acetime_t) 331257600)).str("abbrevDec2010", tz.getAbbrev((acetime_t) 345686400));   // 2010-07-01T00:00Z, 2010-12-15T00:00Z
+    }
     if (i) zones += ",";
     zones += z.done();
     CNT.add("codec.zones");
@@ -83,10 +89,11 @@ static void dumpDb(const char* kind, const ZI* const* reg, uint16_t n) {
 int main(int argc, char** argv) {
   Args a(argc, argv);
   std::string db = a.get("db", "both");
+  g_abbrev = a.has("abbrev");
   if (db == "basic" || db == "both")
-    dumpDb<basic::ZoneInfo, basic::ZoneInfoBroker, basic::ZonePolicyBroker>("basic", VERIF_BASIC_NS::kZoneRegistry, VERIF_BASIC_NS::kZoneRegistrySize);
+    dumpDb<basic::ZoneInfo, basic::ZoneInfoBroker, basic::ZonePolicyBroker, BasicZoneProcessor>("basic", VERIF_BASIC_NS::kZoneRegistry, VERIF_BASIC_NS::kZoneRegistrySize);
   if (db == "extended" || db == "both")
-    dumpDb<extended::ZoneInfo, extended::ZoneInfoBroker, extended::ZonePolicyBroker>("extended", VERIF_EXT_NS::kZoneRegistry, VERIF_EXT_NS::kZoneRegistrySize);
+    dumpDb<extended::ZoneInfo, extended::ZoneInfoBroker, extended::ZonePolicyBroker, ExtendedZoneProcessor>("extended", VERIF_EXT_NS::kZoneRegistry, VERIF_EXT_NS::kZoneRegistrySize);
   CNT.flush();
   return 0;
 }
